@@ -156,7 +156,12 @@ def _run_path(E, c, fnode, cls, params, canary):
         if a.kwarg is not None:
             env[a.kwarg.arg] = {}
         if a.vararg is not None:
-            env[a.vararg.arg] = ()
+            va = params.get(a.vararg.arg)
+            if isinstance(va, tuple) and va and va[0] == "vararg":
+                env[a.vararg.arg] = tuple(make_param(E, "%s%d" % (a.vararg.arg, i_), t_, c)
+                                          for i_, t_ in enumerate(va[1]))
+            else:
+                env[a.vararg.arg] = ()
         if c.setup:
             c.setup(E)
         E.ct_reset()
